@@ -538,6 +538,12 @@ def _far_enough_filter(ctx: Ctx, cls_name: str, helper_name: str, want_filter: s
 
             def harmless(b):
                 q = par_.get(id(b))
+                # `<cur> = []` immediately before the break: nothing is left, the remaining siblings cannot bring anything back
+                if isinstance(b, ast.Break) and isinstance(q, (ast.If, ast.For)) and cur_name is not None:
+                    blk = q.body if b in q.body else q.orelse
+                    k_ = blk.index(b) if b in blk else -1
+                    if k_ > 0 and isinstance(blk[k_ - 1], ast.Assign) and len(blk[k_ - 1].targets) == 1 and norm(blk[k_ - 1].targets[0]) == cur_name and isinstance(blk[k_ - 1].value, ast.List) and not blk[k_ - 1].value.elts:
+                        return True
                 if not (isinstance(q, ast.If) and b in q.body and len(q.body) == 1 and isinstance(b, ast.Break)):
                     return False
                 t_ = canon(q.test)
@@ -834,9 +840,15 @@ def r09_6(ctx: Ctx):
                 continue
             init = ctx.prog.lookup_method(ci, "__init__")
             if init is None:
-                continue
-            pnames = init.params()[1:]
-            anns = {x.arg: (norm(x.annotation) if x.annotation is not None else "") for x in init.node.args.posonlyargs + init.node.args.args + init.node.args.kwonlyargs}
+                # a dataclass: the generated constructor takes the annotated class attributes in order
+                fields = [st for st in ci.node.body if isinstance(st, ast.AnnAssign) and isinstance(st.target, ast.Name)]
+                if not fields or not any("dataclass" in norm(d) for d in ci.node.decorator_list):
+                    continue
+                pnames = [st.target.id for st in fields]
+                anns = {st.target.id: norm(st.annotation) for st in fields}
+            else:
+                pnames = init.params()[1:]
+                anns = {x.arg: (norm(x.annotation) if x.annotation is not None else "") for x in init.node.args.posonlyargs + init.node.args.args + init.node.args.kwonlyargs}
             for i, a in enumerate(c.args):
                 # a literal handed over by position must land on a parameter of its kind: after a reordering of the
                 # constructor's parameters `NBC_FarEnough(factor, 2)` sets `check_only_active=2` (truthy) instead of norm_ord
